@@ -201,7 +201,7 @@ func (d *Decls) text(groups map[string]bool) string {
 	}
 	var gs []string
 	for g := range d.axioms {
-		if g == "core" || groups[g] {
+		if g == "core" || groups[g] || (g == "bytes_assoc" && groups["bytes"] && !groups["noassoc"]) {
 			gs = append(gs, g)
 		}
 	}
